@@ -2156,8 +2156,9 @@ pub enum PropertyStorage {
         len: u8,
         entries: [(PropertyKey, Property); INLINE_PROPERTY_CAPACITY],
     },
-    /// HashMap storage for larger objects.
-    Map(FxHashMap<PropertyKey, Property>),
+    /// Insertion-ordered map storage for larger objects (property enumeration order is
+    /// observable: Object.keys, for-in, JSON.stringify, spread).
+    Map(IndexMap<PropertyKey, Property>),
 }
 
 impl Default for PropertyStorage {
@@ -2185,10 +2186,7 @@ impl PropertyStorage {
         if capacity <= INLINE_PROPERTY_CAPACITY {
             Self::new()
         } else {
-            PropertyStorage::Map(FxHashMap::with_capacity_and_hasher(
-                capacity,
-                Default::default(),
-            ))
+            PropertyStorage::Map(index_map_with_capacity(capacity))
         }
     }
 
@@ -2255,10 +2253,7 @@ impl PropertyStorage {
                 }
 
                 // Need to convert to Map (current_len == INLINE_PROPERTY_CAPACITY)
-                let mut map = FxHashMap::with_capacity_and_hasher(
-                    INLINE_PROPERTY_CAPACITY + 1,
-                    Default::default(),
-                );
+                let mut map = index_map_with_capacity(INLINE_PROPERTY_CAPACITY + 1);
                 for entry in entries.iter_mut() {
                     let (k, v) = mem::replace(
                         entry,
@@ -2317,8 +2312,9 @@ impl PropertyStorage {
                     } else {
                         return None;
                     };
-                    if i < current_len - 1 {
-                        entries.swap(i, current_len - 1);
+                    // Shift the remaining entries down so that insertion order is preserved
+                    for j in i..current_len - 1 {
+                        entries.swap(j, j + 1);
                     }
                     *len -= 1;
                     Some(removed.1)
@@ -2326,7 +2322,8 @@ impl PropertyStorage {
                     None
                 }
             }
-            PropertyStorage::Map(map) => map.remove(key),
+            // shift_remove keeps the insertion order of the remaining properties
+            PropertyStorage::Map(map) => map.shift_remove(key),
         }
     }
 
@@ -2403,10 +2400,7 @@ pub enum PropertyStorageIter<'a> {
         index: usize,
         len: usize,
     },
-    #[cfg(feature = "std")]
-    Map(std::collections::hash_map::Iter<'a, PropertyKey, Property>),
-    #[cfg(not(feature = "std"))]
-    Map(hashbrown::hash_map::Iter<'a, PropertyKey, Property>),
+    Map(indexmap::map::Iter<'a, PropertyKey, Property>),
 }
 
 impl<'a> Iterator for PropertyStorageIter<'a> {
@@ -2437,10 +2431,7 @@ pub enum PropertyStorageIterMut<'a> {
     Inline {
         entries: &'a mut [(PropertyKey, Property)],
     },
-    #[cfg(feature = "std")]
-    Map(std::collections::hash_map::IterMut<'a, PropertyKey, Property>),
-    #[cfg(not(feature = "std"))]
-    Map(hashbrown::hash_map::IterMut<'a, PropertyKey, Property>),
+    Map(indexmap::map::IterMut<'a, PropertyKey, Property>),
 }
 
 impl<'a> Iterator for PropertyStorageIterMut<'a> {
